@@ -16,7 +16,7 @@ MODES = {'quick': [('J', 12), ('I', 4)], 'thorough': [('J', 12), ('I', 4)]}
 FLOORS = {'quick': {'apply.window_set': 1500, 'apply.window_positions': 800, 'kernel.asymmetric': 800, 'kernel.nonsquare': 300,
                     'focal_stats': 150, 'mean': 150, 'convolution': 150, 'hotspots.codes': 100, 'hotspots.negation': 100,
                     'kernel.3x3_exhaustive': 512},
-          'thorough': {'apply.window_set': 10000, 'focal_stats': 1500, 'mean': 1500, 'convolution': 1500, 'hotspots.codes': 1000}}
+          'thorough': {'apply.window_set': 4000, 'focal_stats': 600, 'mean': 600, 'convolution': 600, 'hotspots.codes': 500}}
 DONTCARE_OF = {'hotspots.threshold_band': 'hotspots.cells_judged'}
 EXHAUSTIVE = {'quick': ['all 512 0/1 kernels of shape 3x3, all 8 of shape 1x3 and 3x1 (encoded-window probe)'],
               'thorough': ['all 512 0/1 kernels of shape 3x3 on three rasters each, all 0/1 kernels of shape 1x3, 3x1, 1x5, 5x1, 3x5 sampled']}
@@ -395,6 +395,8 @@ def check(rec, kind, idx, rng, tier):
         if H < 3: H = 3 + H
         if W < 3: W = 3 + W
         z = gen.values(rng, (H, W), str(rng.choice(['int', 'uniform', 'smallint'])), str(rng.choice(['float64', 'float32', 'int32', 'int64'])))
+        if z.dtype.kind == 'f' and rng.random() < 0.3:
+            z = (float(rng.choice([2500.0, 900.0, 12000.0])) + rng.uniform(0, 4, z.shape)).astype(z.dtype)      # plateau: mean >> spread
         # a few strong outliers so that every confidence level occurs
         for _ in range(int(rng.integers(0, 4))):
             y0, x0 = int(rng.integers(0, H)), int(rng.integers(0, W))
@@ -428,7 +430,7 @@ def check(rec, kind, idx, rng, tier):
                 with np.errstate(invalid='ignore'):
                     m = (kn * w).sum()
                 zs[y, x] = (m - gm) / gs
-                dz[y, x] = 64 * E32 * (abs(m) + abs(gm) * np.sqrt(z32.size) + gs) / gs if not np.isnan(m) else 0
+                dz[y, x] = 16 * E32 * (abs(m) + abs(gm) * np.log2(z32.size + 2) + gs) / gs if not np.isnan(m) else 0
         exp = np.zeros((H, W), dtype='int64'); band = np.zeros((H, W), bool)
         for y in range(H):
             for x in range(W):
